@@ -914,11 +914,24 @@ impl<Tr: ?Sized + TrOps, M: BackOps> World<Tr, M> {
                     TKind::Srm => probe_handle!(lib!(vv.swap_remove(*idx))),
                 }
             }
-            Op::SwapWrong(v, idx) => {
+            Op::SwapWrong(v, idx, kind) => {
                 let vv = self.v(*v);
                 let mut e = lib!(vv.at_mut(*idx));
-                let mut w = AnyValueWrapper::new(<T::Wrong as Elem>::new());
-                lib!(e.swap(&mut w));
+                match kind {
+                    0 => {
+                        // typed value of another type
+                        let mut w = AnyValueWrapper::new(<T::Wrong as Elem>::new());
+                        lib!(e.swap(&mut w));
+                    }
+                    _ => {
+                        // TYPE-ERASED value of another runtime type (both sides have Type = Unknown)
+                        let mut x = <T::Wrong as Elem>::new();
+                        let mut raw = unsafe {
+                            AnyValueRaw::new(NonNull::from(&mut x).cast::<u8>(), std::mem::size_of::<T::Wrong>(), TypeId::of::<T::Wrong>())
+                        };
+                        if *kind == 1 { lib!(e.swap(&mut raw)); } else { lib!(raw.swap(&mut *e)); }
+                    }
+                }
             }
             Op::Write(hk, v, idx) => {
                 let vv = self.v(*v);
